@@ -58,6 +58,71 @@ class PSet(list):
             seen.sort(key=lambda v: rank.get(v, len(rank)))
         super().__init__(seen)
 
+    # the rest of the set API (a maintenance change may use set algebra on the result): answered by a real set of the
+    # same elements; only the iteration order is modelled
+    def __getattr__(self, name):
+        if name.startswith("__"):
+            raise AttributeError(name)
+        return getattr(set(self), name)
+
+    def _other(self, o):
+        return set(o) if isinstance(o, (PSet, set, frozenset)) else o
+
+    def __and__(self, o):
+        return PSet(v for v in self if v in self._other(o))
+
+    def __rand__(self, o):
+        return PSet(v for v in o if v in set(self))
+
+    def __or__(self, o):
+        return PSet(list(self) + [v for v in o])
+
+    __ror__ = __or__
+
+    def __sub__(self, o):
+        return PSet(v for v in self if v not in self._other(o))
+
+    def __rsub__(self, o):
+        return PSet(v for v in o if v not in set(self))
+
+    def __xor__(self, o):
+        return (self - o) | (PSet(o) - self)
+
+    def __eq__(self, o):
+        if isinstance(o, (set, frozenset, PSet)):
+            return set(self) == set(o)
+        return list.__eq__(self, o)
+
+    def __ne__(self, o):
+        return not self.__eq__(o)
+
+    __hash__ = None
+
+    def __le__(self, o):
+        return set(self) <= set(o)
+
+    def __ge__(self, o):
+        return set(self) >= set(o)
+
+    def __lt__(self, o):
+        return set(self) < set(o)
+
+    def __gt__(self, o):
+        return set(self) > set(o)
+
+    def add(self, v):
+        if v not in self:
+            self.append(v)
+
+    def discard(self, v):
+        if v in self:
+            self.remove(v)
+
+    def update(self, *others):
+        for o in others:
+            for v in o:
+                self.add(v)
+
 
 def _pk(o):
     """Arguments and results cross the (modelled) process boundary by pickling, as in multiprocessing."""
